@@ -170,6 +170,20 @@ def rule_validation(ctx):
            and sub.get(norm(c.args[0])) != norm(c.args[-1])]
     ctx.ob('C06-R3', pi, 'each check runs on the sub-table its label names', not bad, 'consistent' if not bad else
            f'{bad[0]} checks a different sub-table than it reports')
+    # every check runs for every table: each check call lies on every normal path through __post_init__
+    from ..cfg import CFG
+    gp = CFG(pi.node)
+    domp = gp.dominators(edge_ok=lambda a, b, lab: lab != 'e')
+    chk_nodes = [n for n in gp.nodes if n.stmt is not None and n.kind == 'stmt' and
+                 any(call_name(c) in ('check_coverage', 'check_fl_only') for c in calls_in(n.stmt))]
+    skipped = [n for n in chk_nodes if n.id not in domp.get(gp.exit, set())]
+    early = [n for n in gp.nodes if n.kind == 'stmt' and isinstance(n.stmt, ast.Return)]
+    ctx.ob('C06-R3', pi, f'all {len(chk_nodes)} grid checks run on every path through __post_init__', not skipped and bool(chk_nodes),
+           'no early exit bypasses them' if not skipped else
+           (f'`{skipped[0].text()[:50]}` (and {len(skipped) - 1} more) can be bypassed'
+            + (f' by the early `return` at line {early[0].line}' if early else '')
+            + ': some tables are accepted without the complete-grid / FL-only checks'),
+           line=(early[0].line if early else pi.node.lineno))
     nm = [n for n in walk_no_nested(pi.node) if isinstance(n, ast.Raise) and any('n_mass_values' in norm(t) for t, _, _ in guards_of(n))]
     ctx.ob('C06-R3', pi, 'mass count check raises', bool(nm), 'len(mass) != n_mass_values → raise' if nm else
            'the number of mass values is no longer checked')
